@@ -219,6 +219,36 @@ func (env *c14Env) demand(sp *c14Spec, ref []byte, bufSize int, exact bool) {
 		c.Mismatch("corr:C14.demand", where, "-", core14Trunc(strings.Join(ans, "|")), nil)
 		return
 	}
+	if sp.Name == "tiny" {
+		// vm_compute sample (cases.v): the table and what the library requested
+		coqRanges := func(rs [][2]int) string {
+			var out []string
+			for _, r := range rs {
+				out = append(out, fmt.Sprintf("(%d, %d)", r[0], r[1]))
+			}
+			return "[" + strings.Join(out, "; ") + "]"
+		}
+		var crows, creads []string
+		for i, r := range rows {
+			var f [8]int
+			var pg string
+			parts := strings.Split(r.txt, ":")
+			for j := 0; j < 8; j++ {
+				fmt.Sscan(parts[j], &f[j])
+			}
+			pg = parts[8]
+			var pairs []string
+			if pg != "_" {
+				xs := strings.Split(pg, ".")
+				for j := 0; j+1 < len(xs); j += 2 {
+					pairs = append(pairs, fmt.Sprintf("(%s, %s)", xs[j], xs[j+1]))
+				}
+			}
+			crows = append(crows, fmt.Sprintf("mkChunk %d %d [%s] (%d, %d) (%d, %d) (%d, %d)", f[0], f[1], strings.Join(pairs, "; "), f[2], f[3], f[4], f[5], f[6], f[7]))
+			creads = append(creads, coqRanges(perChunk[i]))
+		}
+		env.vmDemand = append(env.vmDemand, fmt.Sprintf("(mkTable %d %d %d [%s], %s, [%s])", n, flen, max(bufSize, 16), strings.Join(crows, "; "), coqRanges(openReads), strings.Join(creads, "; ")))
+	}
 	if got := c14Ranges(openReads); got != ans[0] {
 		c.Mismatch("corr:C14.demand", where+": ReadAt calls of OpenFile", got, ans[0], nil)
 	}
